@@ -1072,16 +1072,45 @@ def addr_width_rule(R, ea, methods):
         if 'ExprCompose' in txt and 'get_size()' in txt and any(isinstance(c, ast.Constant) and c.value == 16 for c in ast.walk(fn)) \
                 and any(isinstance(c, ast.Constant) and c.value == 32 for c in ast.walk(fn)) and len(fn.body) <= 12:
             wideners.add(name)
-    for entry, var, src_attr in (('eval_ExprMem', 'a_val', 'arg'), ('get_instr_mod', 'a', 'dst.arg')):
+    for entry in ('eval_ExprMem', 'get_instr_mod'):
         fn = methods.get(entry)
         if fn is None:
             raise AnalysisError('eval_abs.%s not found' % entry)
-        cells = [n for n in walk_no_nested(fn) if isinstance(n, ast.Call) and u(n.func) == 'ExprMem' and n.args and u(n.args[0]) == var]
+        # the cell built from an evaluated address: ExprMem(<local>, ..) where the local comes from eval_expr (whatever the local is called)
+        evaluated = set()
+        assigns_ = [n for n in walk_no_nested(fn) if isinstance(n, ast.Assign) and len(n.targets) == 1 and isinstance(n.targets[0], ast.Name)]
+        changed_ = True
+        while changed_:
+            changed_ = False
+            for n in assigns_:
+                t_ = n.targets[0].id
+                if t_ in evaluated:
+                    continue
+                if any(isinstance(c, ast.Call) and u(c.func).split('.')[-1].startswith('eval_expr') for c in ast.walk(n.value)) or \
+                        any(isinstance(x, ast.Name) and x.id in evaluated for x in ast.walk(n.value)):
+                    evaluated.add(t_)
+                    changed_ = True
+        cells = [n for n in walk_no_nested(fn) if isinstance(n, ast.Call) and u(n.func) == 'ExprMem' and n.args and isinstance(n.args[0], ast.Name) and n.args[0].id in evaluated]
         if not cells:
-            raise AnalysisError('%s no longer builds ExprMem(%s, ..)' % (entry, var))
-        first_cell = min(c.lineno for c in cells)
-        widened = [n for n in walk_no_nested(fn) if isinstance(n, ast.Assign) and len(n.targets) == 1 and u(n.targets[0]) == var and n.lineno < first_cell
-                   and any(isinstance(c, ast.Call) and (u(c.func).split('.')[-1] in wideners) for c in ast.walk(n.value))]
+            raise AnalysisError('%s no longer builds ExprMem(<evaluated address>, ..)' % entry)
+        def widened_name(v, before, depth=0):
+            for n in assigns_:
+                if n.targets[0].id == v and n.lineno < before:
+                    if any(isinstance(c, ast.Call) and (u(c.func).split('.')[-1] in wideners) for c in ast.walk(n.value)):
+                        return n
+                    if depth < 3:
+                        for x in ast.walk(n.value):
+                            if isinstance(x, ast.Name) and x.id != v and x.id in evaluated:
+                                r_ = widened_name(x.id, n.lineno + 1, depth + 1)
+                                if r_ is not None:
+                                    return r_
+            return None
+        per_cell = [(c, widened_name(c.args[0].id, c.lineno + 1)) for c in cells]
+        unw = [c for c, w_ in per_cell if w_ is None]
+        var = (unw[0] if unw else cells[0]).args[0].id
+        widened = [] if unw else [per_cell[0][1]]
+        if unw:
+            cells = unw
         inst = '%s: address of the cell' % entry
         if widened:
             R.ok(inst, sample='%s widens the evaluated address (%s) before it builds the cell' % (entry, norm(widened[0])))
